@@ -61,6 +61,28 @@ def run(ctx):
                 ctx.bad('C10.1-capture', inst, 'raw bytes are not start[..8 + consumed-by-nested-term] / fields not carried from the nested term (%s)' % detail, ctx.where(B, bb),
                         key='PROV:%sparse_local_ext:%s:capture' % (DEC, var))
 
+    # wherever the envelope is re-attached, all three identifier kinds are handled (the owned and any zero-copy twin alike)
+    ctx.rule('C10.1-capture-all-kinds', 'a function that re-attaches node-local bytes to one kind of identifier does so for pids, ports and references alike', floor=1)
+    groups = {}
+    for q in ctx.F.bodies:
+        if ctx.F.bodies[q]['crate'] != 'erltf':
+            continue
+        QB = P.B(q)
+        kinds = {var for var, ty in TYPES.items() for bb, t in QB.calls() if is_call_to(t, ty + '::with_local_ext_bytes')}
+        if kinds:
+            groups.setdefault(q.split('::{')[0], set()).update(kinds)
+    ctx.anchor(bool(groups), 'callers of with_local_ext_bytes')
+    for base_fn, kinds in sorted(groups.items()):
+        if base_fn.rsplit('::', 1)[0] in TYPES.values():
+            continue
+        missing = set(TYPES) - kinds
+        inst = base_fn.rsplit('::', 1)[1] if '::' in base_fn else base_fn
+        if missing:
+            ctx.bad('C10.1-capture-all-kinds', inst, '%s re-attaches the node-local bytes for %s but not for %s: a node-local %s that passes through it is re-emitted in plain form (the peer\'s hash is lost)'
+                    % (inst, sorted(kinds), sorted(missing), '/'.join(sorted(m.lower() for m in missing))), ctx.where(P.B(base_fn)) if P.B(base_fn) else None, key='TABLE:%s:local-ext-kinds-missing:%s' % (base_fn, ','.join(sorted(missing))))
+        else:
+            ctx.ok('C10.1-capture-all-kinds', inst, 'handles Pid, Port and Reference')
+
     # every way out of parse_local_ext goes through the match that re-attaches the envelope
     if B is not None:
         sw = [bb for bb in sorted(B.live_blocks()) if (lambda sd: sd and sd[1].replace('&', '') == OWNED and 'parse_term' in str(B.origin_place(sd[0])))(B.switch_on_discr(bb))]
@@ -180,12 +202,17 @@ def run(ctx):
         if cl and cl[0]['derived']:
             ctx.ok('C10.3-logical-fields', var + '::clone', 'derived Clone (all fields, raw bytes included)')
         elif cl:
-            CB = P.B('<%s as core::clone::Clone>::clone' % ty)
-            fs = fields_touched(CB, ty) if CB else set()
-            if fs >= all_fields:
-                ctx.ok('C10.3-logical-fields', var + '::clone', 'manual Clone copies every field')
-            else:
-                ctx.bad('C10.3-logical-fields', var + '::clone', 'Clone does not copy %s' % sorted(all_fields - fs), key='FIELDSET:%s::clone' % ty)
+            # a hand-written Clone: every method of the impl (clone and, if overridden, clone_from) carries every field, raw bytes included
+            for it in cl[0]['items']:
+                fs = set()
+                for CB in bodies_of_fn(P, it):
+                    fs |= fields_touched(CB, ty)
+                m_ = it.rsplit('::', 1)[1]
+                if fs >= all_fields:
+                    ctx.ok('C10.3-logical-fields', '%s::%s' % (var, m_), 'manual %s copies every field' % m_)
+                else:
+                    ctx.bad('C10.3-logical-fields', '%s::%s' % (var, m_), '%s of %s does not copy %s: a value overwritten in place keeps its old node-local bytes (or none), so it is re-emitted as a different identifier / in a different form'
+                            % (m_, var, sorted(all_fields - fs)), key='FIELDSET:%s::%s' % (ty, m_))
 
     # term-level comparators may compare identifiers inline instead of delegating: same field set, no self-comparison
     ctx.rule('C10.3-term-level', 'where OwnedTerm / BorrowedTerm compare, equate or hash an identifier inline (not through the identifier type\'s own impl) they read exactly its logical fields, '
